@@ -963,26 +963,35 @@ def run_idiom(prog):
     return {"status": status, "tapes": obs, "alias": alias}
 
 
-def main():
-    payload = json.load(sys.stdin)
-    mode = payload.get("mode", "diff")
-    if mode == "idioms":
-        print(json.dumps([run_idiom(p) for p in payload["programs"]]))
-        return
-    build_registry()
-    if mode == "list":
-        pub = enumerate_public()
-        covered = {}
-        for name, (fn, gens, parts) in REG.items():
-            covered[name] = {"variants": len(gens), "parts": list(parts),
-                             "public_id": next((q for i, (q, o) in pub.items() if o is getattr(fn, "_c18_inner", fn)), None)}
-        regd = {id(getattr(fn, "_c18_inner", fn)) for fn, _, _ in REG.values()}
-        unregistered = sorted(q for i, (q, o) in pub.items() if i not in regd)
-        print(json.dumps({"registry": covered, "public": sorted(q for q, _ in pub.values()), "unregistered": unregistered,
-                          "transforms_all": [n for n in qp.transforms.__all__]}))
-        return
+def listing():
+    pub = enumerate_public()
+    covered = {}
+    for name, (fn, gens, parts) in REG.items():
+        covered[name] = {"variants": len(gens), "parts": list(parts),
+                         "public_id": next((q for i, (q, o) in pub.items() if o is getattr(fn, "_c18_inner", fn)), None)}
+    regd = {id(getattr(fn, "_c18_inner", fn)) for fn, _, _ in REG.values()}
+    unregistered = sorted(q for i, (q, o) in pub.items() if i not in regd)
+    return {"registry": covered, "public": sorted(q for q, _ in pub.values()), "unregistered": unregistered,
+            "transforms_all": [n for n in qp.transforms.__all__]}
+
+
+def auto_cases(master, k, skip, thorough_single):
+    """deterministic case list: registry x variants x k seeds; the first seed of every variant is fixed (regression corpus)"""
+    cases = []
+    for name, (fn, gens, parts) in REG.items():
+        if name in skip:
+            continue
+        for v in range(len(gens)):
+            n = 1 if name in thorough_single else k
+            for j in range(n):
+                cseed = 1000 + v if j == 0 else random.Random(f"{master}:{name}:{v}:{j}").randrange(10 ** 9)
+                cases.append({"t": name, "variant": v, "cseed": cseed})
+    return cases
+
+
+def run_cases(cases):
     out = []
-    for c in payload["cases"]:
+    for c in cases:
         if c["t"] not in REG:
             out.append({"t": c["t"], "variant": c["variant"], "cseed": c["cseed"], "status": "unknown_transform", "diffs": []})
             continue
@@ -991,7 +1000,31 @@ def main():
         except Exception as ex:  # noqa
             out.append({"t": c["t"], "variant": c["variant"], "cseed": c["cseed"], "status": "driver_error:" + type(ex).__name__ + ":" + str(ex)[:120],
                         "diffs": []})
-    print(json.dumps(out, default=str))
+    return out
+
+
+def main():
+    payload = json.load(sys.stdin)
+    mode = payload.get("mode", "diff")
+    if mode == "idioms":
+        print(json.dumps([run_idiom(p) for p in payload["programs"]]))
+        return
+    build_registry()
+    if mode == "list":
+        print(json.dumps(listing()))
+        return
+    if mode == "auto":
+        # one process does a shard of the differential (+ extra cases) and, if given, the idiom programs
+        cases = auto_cases(payload["master"], payload["k"], set(payload.get("skip", [])), set(payload.get("single", [])))
+        mine = list(payload.get("extra", [])) + cases[payload["shard"]::payload["nshard"]]
+        res = {"obs": run_cases(mine), "n_total": len(cases)}
+        if payload["shard"] == 0:
+            res["listing"] = listing()
+        if payload.get("programs") is not None:
+            res["idioms"] = [run_idiom(p) for p in payload["programs"]]
+        print(json.dumps(res, default=str))
+        return
+    print(json.dumps(run_cases(payload["cases"]), default=str))
 
 
 main()
